@@ -8,11 +8,32 @@ package schedx
 
 import (
 	"fmt"
+	"os"
 	"runtime"
 	"sync"
+	"time"
 )
 
-const MaxThreads = 8
+// MaxThreads bounds the harness threads plus the goroutines the code under test starts
+// itself (Spawn).
+const MaxThreads = 24
+
+// NoGo (environment VERIF_NOGO) turns Spawn off: goroutines started by the code under test
+// then run outside the explorer, as ordinary goroutines.
+var NoGo = os.Getenv("VERIF_NOGO") != ""
+
+// StallAfter is how long the controller waits for the running thread to reach its next
+// point before it concludes that the thread blocks in a primitive the explorer does not
+// control (a channel operation between goroutines of the code under test, say).  That is
+// not a verdict about the code: the process exits with StallExit and the caller repeats the
+// run with VERIF_NOGO=1.
+var StallAfter = 10 * time.Second
+
+const StallExit = 97
+
+// ForeignLive, when set, tells how many goroutines started by the code under test are
+// running outside the explorer (the sync shim counts them).
+var ForeignLive func() int
 
 // thread status
 const (
@@ -37,6 +58,7 @@ type shared struct {
 	abort   bool
 	current int
 	gs      [MaxThreads]uintptr // goroutine identity of every harness thread
+	n       int                 // threads so far (harness threads, then spawned ones)
 }
 
 var sh shared
@@ -99,7 +121,121 @@ func give(id, answer int) {
 //go:norace
 //go:noinline
 func reset(n int) {
-	sh = shared{turn: -1, current: -1}
+	sh = shared{turn: -1, current: -1, n: n}
+}
+
+// allocThread reserves the id of a spawned thread, parked at its initial point.
+//
+//go:norace
+//go:noinline
+func allocThread() int {
+	if sh.n >= MaxThreads || sh.abort {
+		return -1
+	}
+	id := sh.n
+	sh.status[id] = stAtPoint
+	sh.label[id] = "start (spawned)"
+	sh.n++
+	return id
+}
+
+//go:norace
+//go:noinline
+func nThreads() int { return sh.n }
+
+// runState is what the threads of one execution share with the controller.
+type runState struct {
+	wg     sync.WaitGroup
+	panics [MaxThreads]string
+}
+
+var rs *runState
+
+//go:norace
+//go:noinline
+func curRun() *runState { return rs }
+
+//go:norace
+//go:noinline
+func setRun(r *runState) { rs = r }
+
+func startThread(r *runState, i int, body func()) {
+	r.wg.Add(1)
+	go func() {
+		defer r.wg.Done()
+		defer finish(i)
+		defer func() {
+			if x := recover(); x != nil {
+				if _, ok := x.(abortT); !ok {
+					r.panics[i] = fmt.Sprint(x)
+				}
+			}
+		}()
+		// initial point: wait to be scheduled for the first time
+		registerG(i)
+		waitTurn(i)
+		if ab, _ := resumeInfo(i); ab {
+			panic(abortT{})
+		}
+		body()
+	}()
+}
+
+// Spawn starts fn as a further thread of the running execution (a go statement of the code
+// under test, rewritten by the overlay).  The go statement itself is a scheduling point.
+// It returns false when the caller is not an explored thread (or the thread table is
+// full): the caller then starts an ordinary goroutine.
+func Spawn(fn func()) bool {
+	if NoGo || Current() < 0 {
+		return false
+	}
+	r := curRun()
+	if r == nil {
+		return false
+	}
+	id := allocThread()
+	if id < 0 {
+		return false
+	}
+	startThread(r, id, fn)
+	Point("go")
+	return true
+}
+
+// WaitZero blocks (in the scheduler's sense) until *word is zero: the wait of a WaitGroup.
+// It returns false when the caller is not an explored thread.
+func WaitZero(word *int32, label string) bool {
+	id := Current()
+	if id < 0 {
+		return false
+	}
+	for {
+		Point(label)
+		if lockWord(word) == 0 {
+			return true
+		}
+		park(id, stBlocked, "blocked", 0, word)
+		waitTurn(id)
+		if ab, _ := resumeInfo(id); ab {
+			panic(abortT{})
+		}
+	}
+}
+
+// waitBaton spins until the running thread has parked.
+func waitBaton() {
+	var start time.Time
+	for spins := 1; getTurn() != -1; spins++ {
+		runtime.Gosched()
+		if spins&0xffff == 0 {
+			if start.IsZero() {
+				start = time.Now()
+			} else if time.Since(start) > StallAfter {
+				fmt.Fprintf(os.Stderr, "VERIF-STALL: the running thread did not reach a scheduling point within %v: it blocks in a primitive the explorer does not control\n", StallAfter)
+				os.Exit(StallExit)
+			}
+		}
+	}
 }
 
 //go:norace
@@ -237,6 +373,7 @@ type Execution struct {
 	Deadlock  bool
 	Truncated bool // stopped at an already visited state
 	Horizon   bool
+	Threads   int // harness threads plus threads spawned by the code under test
 }
 
 // Explorer configuration and statistics.
@@ -274,32 +411,16 @@ func (e *Explorer) Run(prefix []int) (x *Execution, err error) {
 	}
 	reset(n)
 	h.Init()
-	var wg sync.WaitGroup
-	panics := make([]string, n)
-	for i := 0; i < n; i++ {
-		wg.Add(1)
-		i := i
-		go func() {
-			defer wg.Done()
-			defer finish(i)
-			defer func() {
-				if r := recover(); r != nil {
-					if _, ok := r.(abortT); !ok {
-						panics[i] = fmt.Sprint(r)
-					}
-				}
-			}()
-			// initial point: wait to be scheduled for the first time
-			registerG(i)
-			waitTurn(i)
-			if ab, _ := resumeInfo(i); ab {
-				panic(abortT{})
-			}
-			h.Run(i)
-		}()
-	}
+	baseG := runtime.NumGoroutine()
+	r := &runState{}
+	setRun(r)
+	defer setRun(nil)
 	// every thread starts parked at its initial point
 	initStatus(n)
+	for i := 0; i < n; i++ {
+		i := i
+		startThread(r, i, func() { h.Run(i) })
+	}
 	cur := -1
 	horizon := e.Horizon
 	if horizon == 0 {
@@ -307,9 +428,7 @@ func (e *Explorer) Run(prefix []int) (x *Execution, err error) {
 	}
 	for {
 		// wait for the baton
-		for getTurn() != -1 {
-			runtime.Gosched()
-		}
+		waitBaton()
 		s := snapshot()
 		// pending environment question of the thread that just ran
 		if cur >= 0 && s.status[cur] == stChoice {
@@ -349,7 +468,7 @@ func (e *Explorer) Run(prefix []int) (x *Execution, err error) {
 			curEnabled = true
 		}
 		alldone := true
-		for i := 0; i < n; i++ {
+		for i := 0; i < s.n; i++ {
 			if s.status[i] != stDone {
 				alldone = false
 			}
@@ -361,6 +480,43 @@ func (e *Explorer) Run(prefix []int) (x *Execution, err error) {
 			break
 		}
 		if len(enabled) == 0 {
+			// Goroutines the explorer does not control (started by the code under test when Spawn is
+			// off or the thread table is full) may still be about to release a waiting thread: this
+			// is a deadlock only once they are gone, or do not move for StallAfter.
+			live := 0
+			for i := 0; i < s.n; i++ {
+				if s.status[i] != stDone {
+					live++
+				}
+			}
+			foreign := func() bool {
+				return runtime.NumGoroutine() > baseG+live || (ForeignLive != nil && ForeignLive() > 0)
+			}
+			if foreign() {
+				released := false
+				t0 := time.Now()
+				for spins := 1; foreign() && !released; spins++ {
+					runtime.Gosched()
+					for i := 0; i < s.n; i++ {
+						if isEnabled(i) {
+							released = true
+						}
+					}
+					if spins&0xfff == 0 && time.Since(t0) > StallAfter {
+						break
+					}
+				}
+				if !released {
+					for i := 0; i < s.n; i++ {
+						if isEnabled(i) {
+							released = true
+						}
+					}
+				}
+				if released {
+					continue // look again: somebody is enabled now
+				}
+			}
 			x.Deadlock = true
 			break
 		}
@@ -369,7 +525,9 @@ func (e *Explorer) Run(prefix []int) (x *Execution, err error) {
 			break
 		}
 		idx := len(x.Points)
-		if e.Prune && idx >= len(prefix) {
+		// (threads the code under test started itself have local state the harness key does not
+		// cover: no pruning once there are any)
+		if e.Prune && idx >= len(prefix) && s.n == n {
 			if hk, ok := h.Key(); ok {
 				k := hk
 				for i := 0; i < n; i++ {
@@ -404,24 +562,23 @@ func (e *Explorer) Run(prefix []int) (x *Execution, err error) {
 	// tear down: wake every parked thread with the abort flag so that it unwinds
 	s := snapshot()
 	undone := false
-	for i := 0; i < n; i++ {
+	for i := 0; i < s.n; i++ {
 		if s.status[i] != stDone {
 			undone = true
 		}
 	}
 	if undone {
 		setAbort()
-		for i := 0; i < n; i++ {
+		for i := 0; i < nThreads(); i++ {
 			if snapshot().status[i] != stDone {
 				give(i, 0)
-				for getTurn() != -1 {
-					runtime.Gosched()
-				}
+				waitBaton()
 			}
 		}
 	}
-	wg.Wait()
-	for i, p := range panics {
+	r.wg.Wait()
+	x.Threads = nThreads()
+	for i, p := range r.panics {
 		if p != "" {
 			x.Panics = append(x.Panics, fmt.Sprintf("thread %d panicked: %s", i, p))
 		}
